@@ -49,6 +49,8 @@ class clrp:
         spare = a.maxcol - req - a.left - a.right
         clip = a.width_type == "clip"
         yield "clip-total", implies(clip, l + r + req == a.maxcol)
+        # (DESIGN section 6 C19: "never both a pad and a clip that cancel") a clipped child is clipped, not also padded
+        yield "clip-no-cancelling", implies(clip, either(both(l >= 0, r >= 0), both(l <= 0, r <= 0)))
         yield "nonneg", implies(neg(clip), both(l >= 0, r >= 0, child >= 0))
         yield "fits", implies(both(neg(clip), spare >= 0), both(child == req, l >= a.left, r >= a.right))
         yield "margins-dropped", implies(both(neg(clip), spare < 0, req <= a.maxcol), child == req)
